@@ -524,6 +524,50 @@ pub fn verif_prepare_wasm_payload(
     })
 }
 
+/// Verification hook: the file runner of the live-coding loop (`FileRunner`), constructed as
+/// `run_file` constructs it, with the reaction of `cli_loop` to one file event as a plain call.
+#[cfg(all(mimium_verif, not(target_arch = "wasm32")))]
+pub struct VerifFileRunner(FileRunner);
+#[cfg(all(mimium_verif, not(target_arch = "wasm32")))]
+impl VerifFileRunner {
+    pub fn new_vm(
+        compiler: compiler::Context,
+        path: PathBuf,
+        prog_tx: Option<mpsc::Sender<ProgramPayload>>,
+    ) -> Self {
+        Self(FileRunner::new(compiler, path, prog_tx, false, None, None))
+    }
+    pub fn new_wasm(
+        compiler: compiler::Context,
+        path: PathBuf,
+        prog_tx: Option<mpsc::Sender<ProgramPayload>>,
+        dsp_state_skeleton: Option<StateTreeSkeleton<StateType>>,
+        ext_fns: Vec<ExtFunTypeInfo>,
+        plugin_fns: Option<mimium_lang::runtime::wasm::WasmPluginFnMap>,
+        retired_engine_receiver: Option<
+            mpsc::Receiver<mimium_lang::runtime::wasm::engine::WasmEngine>,
+        >,
+    ) -> Self {
+        Self(FileRunner::new(
+            compiler,
+            path,
+            prog_tx,
+            true,
+            Some(OldWasmProgram {
+                dsp_state_skeleton,
+                ext_fns,
+                plugin_fns,
+            }),
+            retired_engine_receiver,
+        ))
+    }
+    /// One iteration of `cli_loop` in which the watcher reports a change of the file.
+    pub fn on_file_event(&self) {
+        self.0.drain_retired_engines();
+        self.0.recompile_file();
+    }
+}
+
 struct FileRunner {
     pub tx_compiler: mpsc::Sender<CompileRequest>,
     pub rx_compiler: mpsc::Receiver<Result<Response, Errors>>,
